@@ -356,7 +356,8 @@ func (i *Int) Double(x *Int) {
 
 // IsNegative returns 1 if i is negative.
 func (i *Int) IsNegative() ct.Bool {
-	return ct.Bool((*saferith.Int)(i).IsNegative())
+	// a zero magnitude may carry a set sign bit (e.g. (-3) * 0); zero is never negative.
+	return ct.Bool((*saferith.Int)(i).IsNegative()) & i.IsNonZero()
 }
 
 // IsZero returns 1 if i == 0.
